@@ -1,19 +1,45 @@
 from common import LEAN_TB
 
-CFG = {'lean_modules': ['ObiVerif.Props.C20'],
+CFG = {'lean_modules': ['ObiVerif.Props.C20', 'ObiVerif.Props.C20BV'],
  'gen': False,
  'thorough_seeds': 8,
- 'rule': 'cases = (width, operation, operands) drawn from word-boundary limb values (0,1,2^k-1,2^k,2^k+1,all-ones,...) and random limbs, plus every shift '
-         'amount 0..width+64 on three fixed values per width; a case is non-trivial when it is distinct and is a well-formed operation (not bad-op)',
- 'trusted_base': LEAN_TB + ['math/bits Add64/Sub64/Mul64/Div64/LeadingZeros64 modelled by their documented arithmetic meaning',
+ 'rule': 'cases = (width, operation, operands). Fixed corpus: every exported method of Uint64/Uint128/Uint256 and the generic constructors of unint.go on '
+         'every word-boundary value of the width (0, 1, 2, 2^k-1, 2^k, 2^k+1 around each limb boundary, 2^(w-1), 2^w-2, 2^w-1; thorough adds k=1,31..33,62,65,'
+         '95,126,129,190,193,254, alternating patterns and all-ones in a single limb) and on every PAIR of such values for the binary methods; every shift '
+         'amount 0..width+64 on three fixed values per width and the amounts 0,1,31,63,64,65,127,128,129,191,192,193,255,256,257,300,319,320,2^32,2^63,2^64-1 '
+         'on every boundary value; LeftShift64/RightShift64 with those amounts x six carry-in words; Add64/Sub64 with carry-in 0 and 1. Then random cases '
+         '(12000 quick / 400000 per seed thorough) with limbs drawn from boundary values, small values and random words, near-equal operand pairs one time '
+         'in six. A case is non-trivial when it is distinct and is a well-formed operation (not bad-op)',
+ 'trusted_base': LEAN_TB + ['math/bits Add64/Sub64/Mul64/Div64/LeadingZeros64 modelled by their documented arithmetic meaning (carry/borrow input 0 or 1)',
  'math/big as the independent oracle of the failing-input search'],
- 'technique': 'Lean 4 theorems on a limb-level model of obifp + differential correspondence with the real methods + math/big oracle search',
- 'level_text': 'Exactness (value when it fits, overflow signalled exactly when it does not) of the three widths is proved in Lean for all operands on a '
-               'limb-by-limb transcription of uint64.go/uint128.go/uint256.go; the transcription is tied to /repo by running model and real methods on the '
-               "same operand lines every run. Uint128.Mul is proved only for operands with one zero high limb (known finding D27b, pinned by the repository's "
-               'own test).',
- 'level_note': 'Trusted: Lean kernel; math/bits primitives modelled by their documented meaning; the hand transcription (validated differentially, ~16k '
-               'operand lines per quick run); Uint128.QuoRem trial-quotient branch is tied by correspondence and oracle only unless listed among the theorems '
-               'in the evidence file.',
- 'modelled': 'pkg/obifp uint64.go, uint128.go, uint256.go: every method, limb by limb (Model/Fp.lean)',
- 'assumptions': ['log.Warnf has no effect on results', 'log.Panicf is the only overflow signal']}
+ 'technique': 'Lean 4 theorems on a limb-level model of obifp (stated on Nat values and again on BitVec 64/128/256) + differential correspondence with the '
+              'real methods + math/big oracle search',
+ 'level_text': 'One exactness theorem for EVERY exported method of pkg/obifp (`grep "^func (u Uint"`: 28 on Uint64, 32 on Uint128, 24 on Uint256) '
+               'and for ZeroUint/OneUint/From64, proved in Lean for all operands on a limb-by-limb transcription of uint64.go/uint128.go/uint256.go/unint.go: '
+               'Add/Sub/Mul/Add64/Mul64 return the exact value when it fits and panic exactly when it does not; LeftShift/RightShift by ANY amount are '
+               'x*2^n mod 2^w and x/2^n; the carry forms LeftShift64/RightShift64/Add64/Sub64/Mul64 of Uint64 are characterised as double-word registers; '
+               'QuoRem/QuoRem64/Div/Div64/Mod/Mod64 of Uint128 and Div of Uint256 return the Euclidean quotient/remainder (u = q*v + r, r < v) and panic '
+               'iff v = 0 (Uint256.Div also proved to terminate); Cmp/Cmp64 and the five comparison predicates are the order on values; And/Or/Xor/Not are '
+               'Nat.land/lor/xor and 2^w-1-x on the value; Zero/MaxValue/IsZero/Set64; the casts preserve the value when widening and keep exactly '
+               'value mod 2^target when narrowing (so every value that fits is preserved, and the Go warning condition is exactly "does not fit"). '
+               'Props/C20BV.lean restates add/sub/mul (with BitVec.uaddOverflow/usubOverflow/umulOverflow as the panic condition), shifts, bitwise ops, '
+               'ult/ule/equality, udiv/umod and the casts (setWidth) against Lean BitVec 64/128/256, and shows the value is the concatenation of the limbs '
+               'as 64-bit words, so the Nat-mod-2^w reading coincides with machine words. The transcription is tied to /repo by running model and real '
+               "methods on the same operand lines every run. Uint128.Mul is proved only for operands with one zero high limb (known finding D27b, pinned "
+               "by the repository's own test; counterexample theorem u128_mul_hh_not_exact).",
+ 'level_note': 'Trusted: Lean kernel; math/bits primitives modelled by their documented meaning; the hand transcription (validated differentially, ~34k '
+               'operand lines per quick run, every method of every width among them). Partial: Uint128.Mul (u128_mul_exact_partial / u128_mul_partial_bv, '
+               'hypothesis u.w1 = 0 or v.w1 = 0; false without it). Preconditions stated in the theorems rather than removed: carry/borrow input <= 1 for '
+               'Uint64.Add64/Sub64 (bits.Add64/Sub64 leave other values undefined; the harness only generates 0 and 1); 64-bit word arguments < 2^64. '
+               'log.Warnf calls (narrowing casts that drop bits, LeftShift64/RightShift64 with n >= 128) are not modelled as an outcome: the theorems '
+               'state the returned value and, for the casts, that the warning condition is exactly "value does not fit". The oracle demands only what the '
+               'property states (narrowing casts/AsUint64 are checked against math/big when the value fits; LeftShift64/RightShift64 for n < 128; a zero '
+               'divisor carries no demand) - outside that the model comparison alone pins the behaviour. Index method -> theorem: <w>_add/sub/mul/cmp/'
+               'shl/shr/and/or/xor/not/zero/maxValue/isZero/set64/asUint64/toU64/toU128/toU256/equals/lessThan/lessThanOrEqual/greaterThan/'
+               'greaterThanOrEqual_exact for w in u64,u128,u256; u64_add64/sub64/mul64/leftShift64/rightShift64_exact (+ _register); u128_add64/mul64/'
+               'cmp64/quoRem/quoRem64/div/mod/div64/mod64_exact, u128_div_mod_char, u128_div64_mod64_char, u128_quoRem_zero, u128_quoRem64_zero; '
+               'u256_div_exact, u256_div_zero; zeroUint_exact, oneUint_exact, from64_exact.',
+ 'modelled': 'pkg/obifp uint64.go, uint128.go, uint256.go: every exported method, limb by limb; unint.go: ZeroUint/OneUint/From64 at the three widths '
+             '(Model/Fp.lean)',
+ 'assumptions': ['log.Warnf has no effect on results', 'log.Panicf is the only overflow signal',
+                 'bits.Add64/Sub64 are called with carry/borrow 0 or 1 (their documented domain)']}
